@@ -31,7 +31,7 @@ theorem lt_length_of_getElem? {α : Type} {l : List α} {i : Nat} {a : α} (h : 
   · rw [List.getElem?_eq_none hl] at h; cases h
 
 /-- an internal step of thread `t`: its operation, stamps and records stay, state and log too -/
-theorem inv_internal {s₀ : State} {c : Config} {t : Nat} {th th' : Thread} (h : Inv s₀ c)
+theorem inv_internal {s₀ : XState} {c : Config} {t : Nat} {th th' : Thread} (h : Inv s₀ c)
     (hth : c.threads[t]? = some th)
     (hcur : th'.cur = th.cur) (hinv : th'.inv = th.inv) (hdone : th'.done = th.done)
     (hphase : Phase c.s c.log t th')
@@ -76,19 +76,19 @@ theorem inv_internal {s₀ : State} {c : Config} {t : Nat} {th th' : Thread} (h 
       rw [List.getElem?_set_ne (Ne.symm het)]; exact hget
 
 /-- a step of thread `t` that enters its operation in the log and applies the sequential effect -/
-theorem inv_lin {s₀ : State} {c : Config} {t : Nat} {th th' : Thread} {op : Op} (h : Inv s₀ c)
+theorem inv_lin {s₀ : XState} {c : Config} {t : Nat} {th th' : Thread} {op : XOp} (h : Inv s₀ c)
     (hth : c.threads[t]? = some th) (hop : th.cur = some op)
     (hcur : th'.cur = th.cur) (hinv : th'.inv = th.inv) (hdone : th'.done = th.done)
     (hn : NotLind c.log t th.done.length)
-    (hphase : Phase (C07.step c.s op).1 (c.hook t th op) t th')
+    (hphase : Phase (xstep c.s op).1 (c.hook t th op) t th')
     (hsub : ∀ a ∈ th'.held, a ∈ th.held)
     (hframe : ∀ (j : Nat) (thj : Thread), j ≠ t → c.threads[j]? = some thj →
-      ((C07.step c.s op).1.primary = c.s.primary ∨ ∀ g ∈ thj.held, g.1 ≠ LockId.access)) :
+      ((xstep c.s op).1.cache.primary = c.s.cache.primary ∨ ∀ g ∈ thj.held, g.1 ≠ LockId.access)) :
     Inv s₀ (linStep c t th op th') := by
   have htl := lt_length_of_getElem? hth
   have tok := h.thr t th hth
   have hinvlt : th.inv < c.clock := tok.inv_lt (by rw [hop]; simp)
-  have hlog : (linStep c t th op th').log = ⟨t, th.done.length, op, c.clock, (C07.step c.s op).2⟩ :: c.log := rfl
+  have hlog : (linStep c t th op th').log = ⟨t, th.done.length, op, c.clock, (xstep c.s op).2⟩ :: c.log := rfl
   have hsubl : ∀ e ∈ c.log, e ∈ (linStep c t th op th').log := fun e he => by rw [hlog]; exact List.mem_cons_of_mem _ he
   have hnewl : ∀ e ∈ (linStep c t th op th').log, e ∉ c.log → e.tid = t := by
     intro e he hne
@@ -97,7 +97,7 @@ theorem inv_lin {s₀ : State} {c : Config} {t : Nat} {th th' : Thread} {op : Op
     · rfl
     · exact absurd he' hne
   refine ⟨?_, ?_, ?_, ?_, ?_, ?_, ?_, ?_⟩
-  · show (C07.step c.s op).1 = _
+  · show (xstep c.s op).1 = _
     rw [hlog, List.reverse_cons, List.map_append, List.map_cons, List.map_nil, run_snoc, ← h.state_eq]
   · rw [hlog, List.reverse_cons, List.map_append, List.map_append, List.map_cons, List.map_nil, List.map_cons, List.map_nil,
       seqOuts_snoc, h.legal, ← h.state_eq]
@@ -160,7 +160,7 @@ theorem inv_lin {s₀ : State} {c : Config} {t : Nat} {th th' : Thread} {op : Op
         rw [List.getElem?_set_ne (Ne.symm het)]; exact hget
 
 /-- the operation of an idle thread: nothing of it is in the log yet -/
-theorem notLind_of_idle {s₀ : State} {c : Config} {t : Nat} {th : Thread} (h : Inv s₀ c)
+theorem notLind_of_idle {s₀ : XState} {c : Config} {t : Nat} {th : Thread} (h : Inv s₀ c)
     (hth : c.threads[t]? = some th) (hc : th.cur = none) : NotLind c.log t th.done.length := by
   intro e he ⟨h1, h2⟩
   obtain ⟨the, hget, hor⟩ := h.sound e he
@@ -172,7 +172,7 @@ theorem notLind_of_idle {s₀ : State} {c : Config} {t : Nat} {th : Thread} (h :
     exact Nat.lt_irrefl _ this
   · rw [hc] at hcur; cases hcur
 
-theorem inv_invoke {s₀ : State} {c : Config} {t : Nat} {th : Thread} {op : Op} {more : List Op} (h : Inv s₀ c)
+theorem inv_invoke {s₀ : XState} {c : Config} {t : Nat} {th : Thread} {op : XOp} {more : List XOp} (h : Inv s₀ c)
     (hth : c.threads[t]? = some th) (hc : th.cur = none) :
     Inv s₀ (c.put t { th with todo := more, cur := some op, code := Gen.prog (methodOf op),
                               ptr := none, ret := none, inv := c.clock }) := by
@@ -216,7 +216,7 @@ theorem inv_invoke {s₀ : State} {c : Config} {t : Nat} {th : Thread} {op : Op}
       show (c.threads.set t _)[e.tid]? = some the
       rw [List.getElem?_set_ne (Ne.symm het)]; exact hget
 
-theorem inv_respond {s₀ : State} {c : Config} {t : Nat} {th : Thread} {op : Op} (h : Inv s₀ c)
+theorem inv_respond {s₀ : XState} {c : Config} {t : Nat} {th : Thread} {op : XOp} (h : Inv s₀ c)
     (hth : c.threads[t]? = some th) (hc : th.cur = some op) (hcode : th.code = []) :
     Inv s₀ (c.put t { th with
       cur := none
@@ -281,41 +281,44 @@ theorem canAcq_spec {c : Config} {l : LockId} {m : Mode} (h : canAcq c l m = tru
   simpa using h2
 
 theorem execAct_lookup_none {c : Config} {t : Nat} {th : Thread} {now : Time} {k : Key} {rest : List Instr}
-    (h : alookup k c.s.primary = none) :
-    execAct c t th (.fetch now k) .lookup rest =
-      linStep c t th (.fetch now k) { th with code := th.held.map fun g => .rel g.1, ret := some (.ok .miss) } := by
+    (h : alookup k c.s.cache.primary = none) :
+    execAct c t th (.cache (.fetch now k)) .lookup rest =
+      linStep c t th (.cache (.fetch now k)) { th with code := th.held.map fun g => .rel g.1, ret := some (.ok (.cache .miss)) } := by
   simp only [execAct, h, linStep, Config.put, step_fetch_none h]
 
 theorem execAct_lookup_expired {c : Config} {t : Nat} {th : Thread} {now : Time} {k : Key} {rest : List Instr}
-    {cont : Container} (h : alookup k c.s.primary = some cont) (he : C07.Gen.fetchExpired cont.deadline now = true) :
-    execAct c t th (.fetch now k) .lookup rest =
-      linStep c t th (.fetch now k) { th with code := th.held.map fun g => .rel g.1, ret := some (.ok .miss) } := by
+    {cont : Container} (h : alookup k c.s.cache.primary = some cont) (he : C07.Gen.fetchExpired cont.deadline now = true) :
+    execAct c t th (.cache (.fetch now k)) .lookup rest =
+      linStep c t th (.cache (.fetch now k)) { th with code := th.held.map fun g => .rel g.1, ret := some (.ok (.cache .miss)) } := by
   simp only [execAct, h, he, linStep, Config.put, step_fetch_expired h he, if_true]
 
 theorem execAct_lookup_live {c : Config} {t : Nat} {th : Thread} {now : Time} {k : Key} {rest : List Instr}
-    {cont : Container} (h : alookup k c.s.primary = some cont) (he : C07.Gen.fetchExpired cont.deadline now = false) :
-    execAct c t th (.fetch now k) .lookup rest = c.put t { th with code := rest, ptr := some k } := by
+    {cont : Container} (h : alookup k c.s.cache.primary = some cont) (he : C07.Gen.fetchExpired cont.deadline now = false) :
+    execAct c t th (.cache (.fetch now k)) .lookup rest = c.put t { th with code := rest, ptr := some k } := by
   simp [execAct, h, he]
 
 theorem execAct_splice {c : Config} {t : Nat} {th : Thread} {now : Time} {k : Key} {rest : List Instr}
-    {cont : Container} (hp : th.ptr = some k) (h : alookup k c.s.primary = some cont)
+    {cont : Container} (hp : th.ptr = some k) (h : alookup k c.s.cache.primary = some cont)
     (he : C07.Gen.fetchExpired cont.deadline now = false) :
-    execAct c t th (.fetch now k) .splice rest = linStep c t th (.fetch now k) { th with code := rest } := by
+    execAct c t th (.cache (.fetch now k)) .splice rest = linStep c t th (.cache (.fetch now k)) { th with code := rest } := by
   simp only [execAct, hp, linStep, Config.put, step_fetch_live h he]
 
 theorem execAct_copyOut {c : Config} {t : Nat} {th : Thread} {now : Time} {k : Key} {rest : List Instr}
-    {cont : Container} (hp : th.ptr = some k) (h : alookup k c.s.primary = some cont) :
-    execAct c t th (.fetch now k) .copyOut rest =
-      c.put t { th with code := rest, ret := some (.ok (.hit cont.data cont.trigs cont.deadline cont.gen)) } := by
+    {cont : Container} (hp : th.ptr = some k) (h : alookup k c.s.cache.primary = some cont) :
+    execAct c t th (.cache (.fetch now k)) .copyOut rest =
+      c.put t { th with code := rest, ret := some (.ok (.cache (.hit cont.data cont.trigs cont.deadline cont.gen))) } := by
   simp [execAct, hp, h]
 
-theorem simpleOp_shared_state {op : Op} {a : Action} (h : simpleOp op = some (.shared, a)) (s : State) :
-    (C07.step s op).1 = s := by
-  cases op <;> simp [simpleOp] at h
-  rfl
+theorem simpleOp_shared_state {op : XOp} {a : Action} (h : simpleOp op = some (.shared, a)) (s : XState) :
+    (xstep s op).1 = s := by
+  rcases op with (op | _ | _)
+  · cases op <;> simp [simpleOp] at h
+    rfl
+  · simp [simpleOp] at h
+  · simp [simpleOp] at h
 
-theorem Lind_hook {c : Config} {t : Nat} {th : Thread} {op : Op} (hinv : th.inv < c.clock) :
-    Lind (c.hook t th op) t th.done.length op (C07.step c.s op).2 th.inv :=
+theorem Lind_hook {c : Config} {t : Nat} {th : Thread} {op : XOp} (hinv : th.inv < c.clock) :
+    Lind (c.hook t th op) t th.done.length op (xstep c.s op).2 th.inv :=
   ⟨_, List.mem_cons_self, rfl, rfl, rfl, rfl, hinv⟩
 
 end Cppcms.C09
